@@ -32,6 +32,11 @@ abbrev Ref := Nat × Nat × Nat
 def hit (d : DefInfo) (n : String) (t : Tok) : Bool :=
   d.scope.contains t.file && t.text == n && t.castable && t.cls == some d.id
 
+/-- `Definition::search_scope`: a local is searched in its own module; every other definition in the modules of the
+packages of the package graph and - whether or not it belongs to one of them - in its own module -/
+def searchScope (graphFiles : List Nat) (isLocal : Bool) (own : Nat) : List Nat :=
+  if isLocal then [own] else own :: graphFiles
+
 /-- `references`: the hits, collected into a `HashSet` -/
 def references (toks : List Tok) (d : DefInfo) : List Ref :=
   match d.searchName with
